@@ -2,12 +2,14 @@ SPECIFICATION Spec
 CONSTANTS
   Window = 1
   AddStateFix = TRUE
+  FoundFix = TRUE
   MaxH = 2
   MaxOps = 2
   MaxSnaps = 1
   MaxFaults = 1
   Slots = {"a1/bal", "a1/s/k", "a1/s/k1"}
   StVals = {"NIL", "v"}
-INVARIANTS Inv_C13_ReadLatest Inv_C13_QueryExact Inv_C12_RollbackGate Inv_C12_DbAtHead Inv_WindowAgree
+  EmptyVals = {"EMPTY"}
+INVARIANTS Inv_C13_StableExistence Inv_C13_ReadLatest Inv_C13_QueryExact Inv_C12_RollbackGate Inv_C12_DbAtHead Inv_WindowAgree
 CHECK_DEADLOCK FALSE
 VIEW view
